@@ -31,10 +31,10 @@ def run(ctx):
         import simpy
         import cyecca.sim.uros as uros
         import cyecca.sim.msgs as msgs
-    nb = 12 if ctx.quick else 400
+    nb = 12 if ctx.quick else 1000
     for k in range(nb):
         bus_history(ctx, simpy, uros, msgs, ctx.rng("c20:bus%d" % k), k)
-    ne = 2 if ctx.quick else 40
+    ne = 2 if ctx.quick else 100
     eqs = None
     with quiet():
         from cyecca.estimate.attitude import algorithms
